@@ -861,6 +861,8 @@ var syntaxZoo = []string{
 	"for(var i=a?b in c:d;;)break;for(i=a?(b in c):d,j=e?f in g?1:2:3;;)break;",
 	"a=1/*\n*/b=2\nc=3/* x */\nd=4/*\r\n*/++a\nreturn_=5/**/\n",
 	"a?b:c=1;a&&b++;(y)=1;(a.b)++;x=y=z;(a[b])+=1;for(a.b in o);for(a[0] in o);for((c) in o);",
+	"s='a\\\rb';t=\"c\\\r\";u='\\\r\n';v='d\\\n';w='\\\u2028e\\\u2029';x='\\\r\\\r'+\"\\\n\\\n\";",
+	"function dp(a,b,a){return a+b}dp(1,2,3);(function(x,x){return x})(1,2);var o={p:1,p:2,'p':3};function arguments(){}",
 	"for(var i=f(k in o),j=o[k in o];i<1;i++);for(x=(k in o);;)break;for(var q=[k in o];;)break;for(var r=function(){return k in o};;)break;for(var s={p:k in o};;)break;",
 	"var b٣={},é={},e\u0301x=1,a‿b=2,ⅷ=3;b٣.x٣=1;é.e\u0301=b٣.x٣;é.a‿b=b٣.ⅷ;",
 	"o.\\u0061b=1;o.a\\u0062c=2;o.if=o.new.typeof;o.$_=o._$9;",
@@ -877,7 +879,7 @@ var invalidAnywhere = []string{
 	"x=\"abc\n\";", "x=1e;", "x=0x;",
 	"for(x=1\nx<3;x++);", "for(var i=0\ni<1;i++);", "switch(1){default:case 1:default:}", "switch(1){case 1:default:;default:}",
 	"x=({+:1});", "x={0x:1};", "x={*:2,a:1};", "x={a:1,-:2};",
-	"x=/(?</;", "x=/a(?<!/;", "x=/(?<=/;", "x&^=1;", "x=a&^b;",
+	"x=/(?</;", "x=/a(?<!/;", "x=/(?<=/;", "x&^=1;", "x=a&^b;", "x=a?b,c:d;", "x=a?b:c,d:e;", "f(a?b,c:d);",
 	// invalid assignment targets (ES5 allows them to be reported early, section 16; otto does)
 	"f()++;", "f()--;", "++f();", "--f();", "f()=1;", "f()+=1;", "for(f() in o);", "(a,b)=1;", "(a+b)++;", "x++ ++;", "++x++;", "new f()++;", "new f=1;", "a.b()++;", "(a?b:c)=1;", "typeof x=1;", "-x=1;", "x++=1;", "'s'=1;", "null=1;", "true++;", "[a]=1;", "({a:1})=1;", "(function(){})++;", "delete x=1;", "void 0=1;", "a||b=1;", "for(a+b in o);", "for(1 in o);", "for(var a,b in o);",
 	"x=/(?</g;", "x=/\\/;", "x=/[\\\n]/;", "x=/a\\\n/;", "x=/[a\\\r\n]/;", "x=/[\\\u2028]/;",
